@@ -57,12 +57,16 @@ func (p *Prog) checkPopulate(r *Report, rule string) bool {
 				}
 			case token.ADD:
 				// ceil(log2(float64(max))) + 1
-				if k, ok := constInt(x.Y); ok && k >= 1 {
-					populateExtraBits = int(k)
-					if cv, ok := x.X.(*ssa.Convert); ok {
+				kv, other := x.Y, x.X
+				if _, isK := constInt(x.X); isK {
+					kv, other = x.X, x.Y // 1 + ceil(…)
+				}
+				if k, ok := constInt(kv); ok && k >= 1 {
+					if cv, ok := other.(*ssa.Convert); ok {
 						if c1, ok := cv.X.(*ssa.Call); ok && staticCallee(c1) != nil && staticCallee(c1).String() == "math.Ceil" {
 							if c2, ok := c1.Call.Args[0].(*ssa.Call); ok && staticCallee(c2) != nil && staticCallee(c2).String() == "math.Log2" {
 								if cv2, ok := c2.Call.Args[0].(*ssa.Convert); ok && cv2.X == ssa.Value(max) {
+									populateExtraBits = int(k)
 									okWidth = true
 									widthVal = x
 								}
@@ -280,8 +284,26 @@ func ruleP12Hash(p *Prog, r *Report) {
 		r.undecided(rule, "floor:aggregators", "-", "found %d aggregators, expected 5", nAgg)
 	}
 	// --aggregate letter selects the matching aggregator
+	// (the selecting function: whichever function of package cli hands back a report.Aggregator
+	// built by one of the constructors — a method of Report or a free function)
 	sel := p.method("klog/app/cli", "Report", "aggregator")
-	if r.anchorFn(rule, sel, "Report.aggregator") {
+	if sel == nil {
+		for _, f := range p.srcFns {
+			if pkgPathOfFn(f) != modPath+"/klog/app/cli" || f.Signature.Results().Len() != 1 || typeNameOf(f.Signature.Results().At(0).Type()) != "Aggregator" {
+				continue
+			}
+			n := 0
+			for _, ret := range returnsOf(f) {
+				if c, _ := callOf(retResult(ret, 0)); c != nil && staticCallee(c) != nil && strings.HasSuffix(fnBase(staticCallee(c)), "Aggregator") {
+					n++
+				}
+			}
+			if n >= 2 {
+				sel = f
+			}
+		}
+	}
+	if r.anchorFn(rule, sel, "the function of package cli that selects the report aggregator") {
 		want := map[string]string{"y": "Year", "q": "Quarter", "m": "Month", "w": "Week", "": "Day"}
 		for _, ret := range returnsOf(sel) {
 			letter := ""
@@ -451,14 +473,18 @@ func ruleP12Group(p *Prog, r *Report) {
 		if ia, ok := in.(*ssa.IndexAddr); ok && isRangeIndex(ia.Index) && isSliceOf(ia.X.Type(), "Date") {
 			_, ins := phiCycle(ia.X)
 			all := len(ins) > 0
-			for _, x := range ins {
-				if dates != nil && sameValue(x, dates) {
-					continue
+			for _, x0 := range ins {
+				// (the choice between the two may sit in a private helper)
+				for _, rw := range valueRows(x0, 0, map[ssa.Value]bool{}) {
+					x := rw.val
+					if x != nil && dates != nil && sameValue(x, dates) {
+						continue
+					}
+					if c, _ := callOf(x); x != nil && c != nil && staticCallee(c) != nil && fnBase(staticCallee(c)) == "allDatesRange" {
+						continue
+					}
+					all = false
 				}
-				if c, _ := callOf(x); c != nil && staticCallee(c) != nil && fnBase(staticCallee(c)) == "allDatesRange" {
-					continue
-				}
-				all = false
 			}
 			if all {
 				okIter = true
